@@ -40,6 +40,8 @@ def main(argv):
         spec.setdefault('seed', seed)
         spec.setdefault('tier', tier)
         spec.setdefault('mode', 'run')
+        if tier == 'quick' and os.environ.get('VERIF_REACH', '1') != '0':
+            spec.setdefault('reach', True)
     res = core.merge(core.run_shards(prop, specs))
     return report(prop, tier, seed, res, mod, t0, write=True)
 
